@@ -42,10 +42,23 @@ def main(p):
             if got.shape != np.asarray(want).shape or not np.allclose(got, want):
                 bad.append(f"estimate_{k}({p['method']}, axis={axis}, keepdims={p['keepdims']}) = {got.tolist()} but the 1-D estimator per lane gives {np.asarray(want).tolist()}")
         else:
-            xc = np.ones(shape)
-            z = stats.estimate_zscore(xc, p["loc"], p["scale"], axis)
-            if not np.all(np.isfinite(z.data)) or z.data.shape != shape:
-                bad.append(f"z-scores of constant data: {np.asarray(z.data).tolist()}")
+            for xc in (np.ones(shape), np.where(np.indices(shape).sum(axis=0) % 3 == 0, 2.0, 1.0) * 0 + x, None):
+                if xc is None:
+                    # one constant lane next to varying ones (the guard must act per lane)
+                    xc = x.copy()
+                    if axis in (0, None):
+                        xc[:, 0] = 4.0
+                    if axis in (1, None):
+                        xc[0, :] = 4.0
+                    if axis is None:
+                        continue
+                import warnings
+                with warnings.catch_warnings():
+                    warnings.simplefilter("ignore")
+                    z = stats.estimate_zscore(xc, p["loc"], p["scale"], axis)
+                if not np.all(np.isfinite(z.data)) or z.data.shape != shape:
+                    bad.append(f"z-scores are not finite for finite data {xc.tolist()}: {np.asarray(z.data).tolist()}")
+                    break
     except Exception as e:  # noqa: BLE001
         bad.append(f"raised {type(e).__name__}: {e}")
     for b in bad:
